@@ -60,7 +60,27 @@ fn main() {
                 }
                 i += 1;
             }
-            let code = run_check(&prop, tier);
+            // Safety net: a panic of the code under test that escaped every engine's own capture must
+            // still become a verdict, not a crash of the checker.
+            let code = match std::panic::catch_unwind(std::panic::AssertUnwindSafe(|| run_check(&prop, tier))) {
+                Ok(code) => code,
+                Err(_) => {
+                    let what = util::UNGUARDED_PANIC.lock().ok().and_then(|g| g.clone()).unwrap_or_else(|| "<panic>".into());
+                    let loc = util::short_loc(&what);
+                    if loc.contains("chitchat/src/") {
+                        let dir = report::verif_dir().join("replays");
+                        let _ = std::fs::create_dir_all(&dir);
+                        let path = dir.join(format!("{prop}-escaped-panic.json"));
+                        let _ = std::fs::write(&path, serde_json::to_string_pretty(&serde_json::json!({"engine":"top","property":prop,"observed":format!("the code under test panicked during the exploration: {what}"),"signature":format!("panic:{loc}")})).unwrap());
+                        eprintln!("  the code under test panicked during the exploration: {what}");
+                        println!("VIOLATION property={prop} replay={}", path.display());
+                        1
+                    } else {
+                        eprintln!("MACHINERY FAILURE: the checker itself panicked: {what}");
+                        3
+                    }
+                }
+            };
             std::process::exit(code);
         }
         "explore" => {
